@@ -83,6 +83,7 @@ theorem total_aux : (e : Expr) → ArithOnly e = true → GivenOk e = true →
   | .bleaf _, h, _ => by simp [ArithOnly] at h
   | .eleaf _, h, _ => by simp [ArithOnly] at h
   | .cref _, h, _ => by simp [ArithOnly] at h
+  | .present _ _, h, _ => by simp [ArithOnly] at h
 theorem totalList_aux : (es : List Expr) → ArithOnlyList es = true → GivenOkList es = true →
     ∃ avs : List AVal, absList es = some (avs.map .int) ∧ ∀ a ∈ avs, InvS a
   | [], _, _ => ⟨[], rfl, fun a ha => nomatch ha⟩
